@@ -191,6 +191,9 @@ class Contract(object):
         # function is verified, not visible (not assumed) at call sites
         self.internal_ensures = list(internal_ensures)
         self.internal_raises = dict(internal_raises or {})
+        # further exceptional post-conditions over the callee's locals, each
+        # its own obligation: [(exception class, label, clause)]
+        self.internal_raises_extra = []
         self._parsed = {}
 
     def parsed(self, clause):
@@ -742,6 +745,11 @@ class Engine(object):
         for icls, iclause in c.internal_raises.items():
             if issubclass(exc.cls, icls):
                 ctx.oblige(label + '.internal',
+                           self.eval_clause(it, iclause, env),
+                           kind='exc-post', where=pr.where or '')
+        for icls, ilabel, iclause in getattr(c, 'internal_raises_extra', ()):
+            if issubclass(exc.cls, icls):
+                ctx.oblige('%s.%s' % (label, ilabel),
                            self.eval_clause(it, iclause, env),
                            kind='exc-post', where=pr.where or '')
         ctx.oblige('canary.' + label, z3.BoolVal(False), kind='canary')
